@@ -2,7 +2,7 @@
   Helper lemmas for C01 (`lower_sound`), part 4b: the binary operator steps, by the forms of the
   two lowered arguments.
 -/
-import SympdeModel.Lemmas.LowerStep1
+import SympdeModel.Lemmas.LowerLeaf
 namespace Sympde.Lower
 open E Gen
 open DRing (sumN)
@@ -32,7 +32,7 @@ macro_rules
                      | exact Or.inr (Or.inr (Or.inr rfl)))
            (by rfl) (by rfl) (by rfl) (by rfl)
            (by first | exact Or.inl rfl | exact Or.inr ⟨rfl, rfl⟩)
-           a b _ _ $hVFa $hVFb $hsiga $hsigb hra hrb ?_ ?_ IHa IHb t h
+           a b _ _ $hVFa $hVFb $hsiga $hsigb hra hrb ?_ ?_ IHa IHb
          all_goals (simp only [sigmaOf_two, $prepa:term, $prepb:term]; reads_tac)))
 
 set_option maxRecDepth 100000 in
@@ -42,9 +42,10 @@ theorem op2_step_sc_sc (S : DRing K) (d : Nat) (hd : d = 1 ∨ d = 2 ∨ d = 3) 
     (hLSa : LS a' = true) (hLSb : LS b' = true) (hτa : τa = .s ∨ d = 1) (hτb : τb = .s ∨ d = 1)
     (hra : rank d a = rk τa) (hrb : rank d b = rk τb)
     (IHa : ∀ i j, InR d τa i j → den S a' i j = denG S d lg a i j)
-    (IHb : ∀ i j, InR d τb i j → den S b' i j = denG S d lg b i j) (t : E)
-    (h : applyLeaf d (op2Name lg o d) [a', b'] = .ok t) :
-    hasShape d τ t = true ∧ ∀ i j, InR d τ i j → den S t i j = denG S d lg (op2 o a b) i j := by
+    (IHb : ∀ i j, InR d τb i j → den S b' i j = denG S d lg b i j) :
+    (∃ t, applyLeaf d (op2Name lg o d) [a', b'] = .ok t) ∧
+    ∀ t, applyLeaf d (op2Name lg o d) [a', b'] = .ok t →
+      hasShape d τ t = true ∧ ∀ i j, InR d τ i j → den S t i j = denG S d lg (op2 o a b) i j := by
   have hVFa : VF a' = true := LS_VF a' hLSa
   have hVFb : VF b' = true := LS_VF b' hLSb
   have hσa := bindArg_LS_eq d 0 a' hLSa
@@ -74,9 +75,10 @@ theorem op2_step_sc_vec (S : DRing K) (lg : Bool) (o : Op2)
     (hLSa : LS a' = true) (hes : LSList es = true)
     (hra : rank 1 a = rk τa) (hrb : rank 1 b = rk τb)
     (IHa : ∀ i j, InR 1 τa i j → den S a' i j = denG S 1 lg a i j)
-    (IHb : ∀ i j, InR 1 τb i j → den S (mat 1 1 es) i j = denG S 1 lg b i j) (t : E)
-    (h : applyLeaf 1 (op2Name lg o 1) [a', mat 1 1 es] = .ok t) :
-    hasShape 1 τ t = true ∧ ∀ i j, InR 1 τ i j → den S t i j = denG S 1 lg (op2 o a b) i j := by
+    (IHb : ∀ i j, InR 1 τb i j → den S (mat 1 1 es) i j = denG S 1 lg b i j) :
+    (∃ t, applyLeaf 1 (op2Name lg o 1) [a', mat 1 1 es] = .ok t) ∧
+    ∀ t, applyLeaf 1 (op2Name lg o 1) [a', mat 1 1 es] = .ok t →
+      hasShape 1 τ t = true ∧ ∀ i j, InR 1 τ i j → den S t i j = denG S 1 lg (op2 o a b) i j := by
   have hVFa : VF a' = true := LS_VF a' hLSa
   have hVFb : VF (mat 1 1 es) = true := by simpa [VF] using hes
   have hσa := bindArg_LS_eq 1 0 a' hLSa
@@ -95,9 +97,10 @@ theorem op2_step_vec_sc (S : DRing K) (lg : Bool) (o : Op2)
     (hes : LSList es = true) (hLSb : LS b' = true)
     (hra : rank 1 a = rk τa) (hrb : rank 1 b = rk τb)
     (IHa : ∀ i j, InR 1 τa i j → den S (mat 1 1 es) i j = denG S 1 lg a i j)
-    (IHb : ∀ i j, InR 1 τb i j → den S b' i j = denG S 1 lg b i j) (t : E)
-    (h : applyLeaf 1 (op2Name lg o 1) [mat 1 1 es, b'] = .ok t) :
-    hasShape 1 τ t = true ∧ ∀ i j, InR 1 τ i j → den S t i j = denG S 1 lg (op2 o a b) i j := by
+    (IHb : ∀ i j, InR 1 τb i j → den S b' i j = denG S 1 lg b i j) :
+    (∃ t, applyLeaf 1 (op2Name lg o 1) [mat 1 1 es, b'] = .ok t) ∧
+    ∀ t, applyLeaf 1 (op2Name lg o 1) [mat 1 1 es, b'] = .ok t →
+      hasShape 1 τ t = true ∧ ∀ i j, InR 1 τ i j → den S t i j = denG S 1 lg (op2 o a b) i j := by
   have hVFa : VF (mat 1 1 es) = true := by simpa [VF] using hes
   have hVFb : VF b' = true := LS_VF b' hLSb
   have hσb := bindArg_LS_eq 1 1 b' hLSb
@@ -117,9 +120,10 @@ theorem op2_step_vec_vec (S : DRing K) (d : Nat) (hd : d = 1 ∨ d = 2 ∨ d = 3
     (hτa : τa = .v ∨ (τa = .m ∧ d = 1)) (hτb : τb = .v ∨ (τb = .m ∧ d = 1))
     (hra : rank d a = rk τa) (hrb : rank d b = rk τb)
     (IHa : ∀ i j, InR d τa i j → den S (mat d 1 es) i j = denG S d lg a i j)
-    (IHb : ∀ i j, InR d τb i j → den S (mat d 1 es') i j = denG S d lg b i j) (t : E)
-    (h : applyLeaf d (op2Name lg o d) [mat d 1 es, mat d 1 es'] = .ok t) :
-    hasShape d τ t = true ∧ ∀ i j, InR d τ i j → den S t i j = denG S d lg (op2 o a b) i j := by
+    (IHb : ∀ i j, InR d τb i j → den S (mat d 1 es') i j = denG S d lg b i j) :
+    (∃ t, applyLeaf d (op2Name lg o d) [mat d 1 es, mat d 1 es'] = .ok t) ∧
+    ∀ t, applyLeaf d (op2Name lg o d) [mat d 1 es, mat d 1 es'] = .ok t →
+      hasShape d τ t = true ∧ ∀ i j, InR d τ i j → den S t i j = denG S d lg (op2 o a b) i j := by
   have hVFa : VF (mat d 1 es) = true := by simpa [VF] using hes
   have hVFb : VF (mat d 1 es') = true := by simpa [VF] using hes'
   rcases hd with rfl | rfl | rfl
@@ -140,9 +144,10 @@ theorem op2_step_mat_vec (S : DRing K) (d : Nat) (hd : d = 2 ∨ d = 3) (lg : Bo
     (hes : LSList es = true) (hes' : LSList es' = true) (hτa : τa = .m) (hτb : τb = .v)
     (hra : rank d a = rk τa) (hrb : rank d b = rk τb)
     (IHa : ∀ i j, InR d τa i j → den S (mat d d es) i j = denG S d lg a i j)
-    (IHb : ∀ i j, InR d τb i j → den S (mat d 1 es') i j = denG S d lg b i j) (t : E)
-    (h : applyLeaf d (op2Name lg o d) [mat d d es, mat d 1 es'] = .ok t) :
-    hasShape d τ t = true ∧ ∀ i j, InR d τ i j → den S t i j = denG S d lg (op2 o a b) i j := by
+    (IHb : ∀ i j, InR d τb i j → den S (mat d 1 es') i j = denG S d lg b i j) :
+    (∃ t, applyLeaf d (op2Name lg o d) [mat d d es, mat d 1 es'] = .ok t) ∧
+    ∀ t, applyLeaf d (op2Name lg o d) [mat d d es, mat d 1 es'] = .ok t →
+      hasShape d τ t = true ∧ ∀ i j, InR d τ i j → den S t i j = denG S d lg (op2 o a b) i j := by
   have hVFa : VF (mat d d es) = true := by simpa [VF] using hes
   have hVFb : VF (mat d 1 es') = true := by simpa [VF] using hes'
   rcases hd with rfl | rfl
@@ -160,9 +165,10 @@ theorem op2_step_vec_mat (S : DRing K) (d : Nat) (hd : d = 2 ∨ d = 3) (lg : Bo
     (hes : LSList es = true) (hes' : LSList es' = true) (hτa : τa = .v) (hτb : τb = .m)
     (hra : rank d a = rk τa) (hrb : rank d b = rk τb)
     (IHa : ∀ i j, InR d τa i j → den S (mat d 1 es) i j = denG S d lg a i j)
-    (IHb : ∀ i j, InR d τb i j → den S (mat d d es') i j = denG S d lg b i j) (t : E)
-    (h : applyLeaf d (op2Name lg o d) [mat d 1 es, mat d d es'] = .ok t) :
-    hasShape d τ t = true ∧ ∀ i j, InR d τ i j → den S t i j = denG S d lg (op2 o a b) i j := by
+    (IHb : ∀ i j, InR d τb i j → den S (mat d d es') i j = denG S d lg b i j) :
+    (∃ t, applyLeaf d (op2Name lg o d) [mat d 1 es, mat d d es'] = .ok t) ∧
+    ∀ t, applyLeaf d (op2Name lg o d) [mat d 1 es, mat d d es'] = .ok t →
+      hasShape d τ t = true ∧ ∀ i j, InR d τ i j → den S t i j = denG S d lg (op2 o a b) i j := by
   have hVFa : VF (mat d 1 es) = true := by simpa [VF] using hes
   have hVFb : VF (mat d d es') = true := by simpa [VF] using hes'
   rcases hd with rfl | rfl
@@ -180,9 +186,10 @@ theorem op2_step_mat_mat (S : DRing K) (d : Nat) (hd : d = 2 ∨ d = 3) (lg : Bo
     (hes : LSList es = true) (hes' : LSList es' = true) (hτa : τa = .m) (hτb : τb = .m)
     (hra : rank d a = rk τa) (hrb : rank d b = rk τb)
     (IHa : ∀ i j, InR d τa i j → den S (mat d d es) i j = denG S d lg a i j)
-    (IHb : ∀ i j, InR d τb i j → den S (mat d d es') i j = denG S d lg b i j) (t : E)
-    (h : applyLeaf d (op2Name lg o d) [mat d d es, mat d d es'] = .ok t) :
-    hasShape d τ t = true ∧ ∀ i j, InR d τ i j → den S t i j = denG S d lg (op2 o a b) i j := by
+    (IHb : ∀ i j, InR d τb i j → den S (mat d d es') i j = denG S d lg b i j) :
+    (∃ t, applyLeaf d (op2Name lg o d) [mat d d es, mat d d es'] = .ok t) ∧
+    ∀ t, applyLeaf d (op2Name lg o d) [mat d d es, mat d d es'] = .ok t →
+      hasShape d τ t = true ∧ ∀ i j, InR d τ i j → den S t i j = denG S d lg (op2 o a b) i j := by
   have hVFa : VF (mat d d es) = true := by simpa [VF] using hes
   have hVFb : VF (mat d d es') = true := by simpa [VF] using hes'
   rcases hd with rfl | rfl
